@@ -203,6 +203,10 @@ def not_python_evaluable(body):
                 return True
             if isinstance(s, (ast.Tuple, ast.List, ast.Dict, ast.Lambda)):
                 return True
+        if isinstance(n, ast.Subscript) and isinstance(n.value, ast.Dict):
+            # a key that holds a dict / list / set display is unhashable: python raises TypeError for {..}[({..}, 1)] too
+            if any(isinstance(x, (ast.Dict, ast.List, ast.Set)) for x in astx.walk_nodes(n.slice)):
+                return True
     return False
 
 
